@@ -390,6 +390,7 @@ theorem handleF_none (env : Env) (fail : List String) (w : World) (op : Op) :
   · simp
   · exact pack (deleteTemplateF_sim h0 _)
   · simp
+  · simp
 
 /-! ## B. The running-state invariant under a fault in ANY transaction -/
 
@@ -733,6 +734,7 @@ theorem handleF_inv (env : Env) (fail : List String) (fault : Option Nat) (w : W
   · exact createTemplateF_inv env ⟨w, fault, false⟩ _ _ h
   · exact handle_inv Variant.fixed env fail w _ h
   · exact deleteTemplateF_inv ⟨w, fault, false⟩ _ h
+  · exact handle_inv Variant.fixed env fail w _ h
   · exact handle_inv Variant.fixed env fail w _ h
 
 /-! ## C. What a failed transaction leaves behind -/
